@@ -64,6 +64,16 @@ def leaf_array(node, seed):
     raise ValueError(fill)
 
 
+def gauss_params(node, seed):
+    """(white_vec, prec_sqrt) of a Gaussian leaf ("G", gid, ((name, dtype, shape), ...)); full rank, well conditioned."""
+    _, gid, inputs = node
+    batch = tuple(dt for _, dt, shp in inputs if dt != "real")
+    dim = sum(int(np.prod(shp)) if shp else 1 for _, dt, shp in inputs if dt == "real")
+    wv = generic_fill(700 + gid, batch + (dim,), seed) - 1.0
+    ps = 0.5 * generic_fill(701 + gid, batch + (dim, dim), seed) + 2.0 * np.eye(dim)
+    return wv, ps
+
+
 def real_points(name, shape, seed, k=2):
     """The fixed finite point set at which a real-valued free input is bound."""
     h = sum((i + 1) * ord(c) for i, c in enumerate(name))
@@ -331,6 +341,17 @@ def ty(e):
             raise IllTyped("reals_var clashes")
         inputs[reals_var] = (dd[0], (bd[0],) + dd[1])
         return Ty(inputs, t.out)
+    if tag == "G":
+        _, gid, inputs = e
+        if len({n for n, _, _ in inputs}) != len(inputs) or not any(dt == "real" for _, dt, _ in inputs):
+            raise IllTyped("gaussian inputs")
+        return Ty({n: (dt, tuple(shp)) for n, dt, shp in inputs}, ("real", ()))
+    if tag == "D":
+        _, name, point, ld = e
+        tp, tl = ty(point), ty(ld)
+        if name in tp.inputs or name in tl.inputs or tl.out != ("real", ()):
+            raise IllTyped("delta")
+        return Ty(_merge({name: tp.out}, tp.inputs, tl.inputs), ("real", ()))
     if tag == "Al":
         _, sub, names = e
         t = ty(sub)
@@ -543,6 +564,19 @@ def den(e, rho, seed=0):
             v = den(sub, rho2, seed)
             acc = v if acc is None else acc + v
         return acc
+    if tag == "G":
+        wv, ps = gauss_params(e, seed)
+        idx = tuple(int(rho[n]) for n, dt, _ in e[2] if dt != "real")
+        z = np.concatenate([np.asarray(rho[n], dtype=float).reshape(-1) for n, dt, _ in e[2] if dt == "real"])
+        r = z @ ps[idx] - wv[idx]
+        return np.asarray(-0.5 * np.sum(r * r))
+    if tag == "D":
+        _, name, point, ld = e
+        p = den(point, rho, seed)
+        v = np.asarray(rho[name])
+        if p.shape == v.shape and np.all(p == v):
+            return den(ld, rho, seed)
+        return np.asarray(-np.inf)
     if tag == "Al":
         return den(e[1], rho, seed)
     if tag == "Ein":
@@ -724,6 +758,19 @@ def build(e, seed=0, arrays=None):
             return Cat(e[1], tuple(go(p) for p in e[2]), e[3])
         if tag == "Ind":
             return Independent(go(e[1]), e[2], e[3], e[4])
+        if tag == "G":
+            from collections import OrderedDict
+            from funsor.gaussian import Gaussian
+
+            wv, ps = gauss_params(e, seed)
+            if arrays is not None:
+                wv = arrays.setdefault((e, "wv"), wv)
+                ps = arrays.setdefault((e, "ps"), ps)
+            return Gaussian(wv, ps, OrderedDict((n, dom(dt, shp)) for n, dt, shp in e[2]))
+        if tag == "D":
+            from funsor.delta import Delta
+
+            return Delta(e[1], go(e[2]), go(e[3]))
         if tag == "Al":
             return go(e[1]).align(tuple(e[2]))
         if tag == "Ein":
@@ -796,6 +843,11 @@ def code(e):
         return "Cat(%r, (%s,), %r)" % (e[1], ", ".join(code(p) for p in e[2]), e[3])
     if tag == "Ind":
         return "Independent(%s, %r, %r, %r)" % (code(e[1]), e[2], e[3], e[4])
+    if tag == "G":
+        ins = "OrderedDict([%s])" % ", ".join("(%r, Array[%r, %r])" % (n, dt, tuple(shp)) for n, dt, shp in e[2])
+        return "Gaussian(*gauss_leaf(%r), %s)" % (e, ins)
+    if tag == "D":
+        return "Delta(%r, %s, %s)" % (e[1], code(e[2]), code(e[3]))
     if tag == "Al":
         return "%s.align(%r)" % (code(e[1]), tuple(e[2]))
     if tag == "Ein":
@@ -831,11 +883,23 @@ def leaf(node, seed=%d):
         c = np.arange(n, dtype=np.float64)
         return (0.5 + 1.5 * np.mod(0.6180339887498949 * (131.0 * fill[1] + c + 1.0) + seed * 0.7548776662466927, 1.0)).reshape(full)
     return np.array(fill[1], dtype=np.float64 if dtype == "real" else np.int64).reshape(full)
+def gfill(i, shape, seed):
+    n = int(np.prod(shape)) if shape else 1
+    c = np.arange(n, dtype=np.float64)
+    return (0.5 + 1.5 * np.mod(0.6180339887498949 * (131.0 * i + c + 1.0) + seed * 0.7548776662466927, 1.0)).reshape(shape)
+def gauss_leaf(node, seed=%d):
+    from funsor.gaussian import Gaussian
+    _, gid, inputs = node
+    batch = tuple(dt for _, dt, shp in inputs if dt != "real")
+    dim = sum(int(np.prod(shp)) if shp else 1 for _, dt, shp in inputs if dt == "real")
+    return gfill(700 + gid, batch + (dim,), seed) - 1.0, 0.5 * gfill(701 + gid, batch + (dim, dim), seed) + 2.0 * np.eye(dim)
+from funsor.gaussian import Gaussian
+from funsor.delta import Delta
 """
 
 
 def snippet(e, seed, expected=None, interpretation=None):
-    lines = [SNIPPET_HEADER % seed]
+    lines = [SNIPPET_HEADER % (seed, seed)]
     if interpretation:
         lines.append("with funsor.interpretations.%s:\n    r = %s" % (interpretation, code(e)))
     else:
@@ -866,6 +930,8 @@ def children(e):
         return (e[3],)
     if tag in ("Stack", "Cat"):
         return tuple(e[2])
+    if tag == "D":
+        return (e[2], e[3])
     if tag in ("Ind", "Al"):
         return (e[1],)
     if tag == "Ein":
